@@ -355,9 +355,9 @@ def check_case(case, ctx):
     for f in case['faults']:
         key = tuple(f['cell'])
         o = observed.get(key, ('missing',))
-        if lazy and (o == ('missing',) or gw.key_of(desc, *key) not in m.dsp.nodes):
+        if lazy and (o == ('missing',) or gw.key_of(desc, *key) not in m.cells):
             # not pulled in as a cell of its own (seen at most through a range
-            # of the lazily loaded book)
+            # of the lazily loaded book, where it may be a blank filler node)
             ctx.count('lazy.fault-not-reached')
             ov[key] = xl.c_err('#REF!')
             continue
